@@ -228,7 +228,7 @@ def expected_totals(case, append):
     return exp, shared
 
 
-def observed_totals(integrals):
+def observed_totals(integrals, dup=None):
     w = world()
     obs = {}
     for itg in integrals:
@@ -243,6 +243,8 @@ def observed_totals(integrals):
             sids = (sids,)
         for r in sids:
             tot = obs.setdefault((d, itg.integral_type(), r), {})
+            if dup is not None and cls in tot:
+                dup.append(r)
             tot[cls] = tot.get(cls, 0) + val
     return obs
 
@@ -264,26 +266,53 @@ def md_names_of_classes(case, classes):
     return names
 
 
+def relabelling(exp, obs):
+    """If, in every region, obs is exp with the metadata classes relabelled by a map phi (same wrapper;
+    several classes may map to one = pooled, or a class is replaced by another class of the form), return
+    the list of (class, phi(class)) with phi(class) != class over all regions; else None."""
+    if set(exp) != set(obs):
+        return None
+    classes = sorted({c for tot in exp.values() for c in tot})
+    allmoved = []
+    for r, e in exp.items():
+        if e == obs[r]:
+            continue
+        if sum(e.values()) != sum(obs[r].values()):
+            return None
+        here = sorted(e)
+        best = None
+        for images in itertools.product(range(len(classes)), repeat=len(here)):
+            moved = [(here[k], classes[j]) for k, j in enumerate(images) if here[k] != classes[j]]
+            if not moved or any(a[1] != b[1] for a, b in moved):
+                continue
+            if best is not None and len(moved) >= len(best):
+                continue
+            tot = {}
+            for k, j in enumerate(images):
+                tot[classes[j]] = tot.get(classes[j], 0) + e[here[k]]
+            if tot == obs[r]:
+                best = moved
+        if best is None:
+            return None
+        allmoved += best
+    return allmoved
+
+
 def diagnose(case, append, stage, exp, obs):
     """Return (key, what) if the totals differ, else None."""
     if exp == obs:
         return None
-    wrong = set()
-    for r in set(exp) | set(obs):
-        e, o = exp.get(r, {}), obs.get(r, {})
-        for cls in set(e) | set(o):
-            if e.get(cls, 0) != o.get(cls, 0):
-                wrong.add(cls)
-    names = md_names_of_classes(case, wrong)
-    unknown_classes = [c for c in wrong if not md_names_of_classes(case, {c})]
     full = case_str(case, append, stage)
-    if len(names) >= 2 and not unknown_classes and len({c[1] for c in wrong}) == 1:
-        # the only thing wrong is that integrals of different metadata classes (same wrapper) were pooled
-        fam = "metadata-array-collision" if names <= ARRAY_MD else "metadata-merge"
-        key = f"{fam}:{stage}:" + "|".join(sorted(names))
+    moved = relabelling(exp, obs)
+    if moved:
+        # the only thing wrong: integrals of different metadata classes (same wrapper) were treated as one
+        groups = sorted(sorted(md_names_of_classes(case, {a}) | md_names_of_classes(case, {b})) for a, b in moved)
+        names = groups[0]
+        fam = "metadata-array-collision" if set(names) <= ARRAY_MD else "metadata-merge"
+        key = f"{fam}:{stage}:" + "|".join(names)
         what = (
-            f"integrals with different metadata ({', '.join(sorted(names))}) were merged into one integral "
-            f"(first witness: {full})"
+            f"integrals with different metadata ({'|'.join(names)}) were treated as having the same metadata "
+            f"and merged (witness: {full})"
         )
         return key, what
     return (
@@ -301,7 +330,11 @@ def check_case(case, part):
         exp, shared = expected_totals(case, append)
         part.inc("transitions")
         grouped = group_form_integrals(form, domains, do_append_everywhere_integrals=append)
-        obs = observed_totals(grouped.integrals())
+        dup = []
+        obs = observed_totals(grouped.integrals(), dup)
+        if dup:
+            # informational only: same metadata class left in two output integrals (totals unaffected)
+            part.count("info_same_metadata_not_merged")
         part.inc("states")
         part.inc("validated")
         if shared:
